@@ -13,6 +13,7 @@ import (
 )
 
 func strconvUnquote(s string) (string, error) { return strconv.Unquote(s) }
+func strconvQuote(s string) string            { return strconv.Quote(s) }
 
 type PropConfig struct {
 	ID       string
@@ -75,8 +76,13 @@ func cmdCheck(args []string) int {
 	seed, _ := strconv.Atoi(os.Getenv("VERIF_SEED"))
 	absRepo, _ := filepath.Abs(*repo)
 	r := &Run{cfg: cfg, tier: tier, repo: absRepo, verif: *verif, seed: seed, t0: time.Now(), extraCov: map[string]interface{}{}}
-	r.workdir, _ = os.MkdirTemp("", "govc-"+cfg.ID+"-")
-	defer os.RemoveAll(r.workdir)
+	if wd := os.Getenv("GOVC_WORKDIR"); wd != "" {
+		r.workdir = wd
+		os.MkdirAll(wd, 0o755)
+	} else {
+		r.workdir, _ = os.MkdirTemp("", "govc-"+cfg.ID+"-")
+		defer os.RemoveAll(r.workdir)
+	}
 	e := NewEngine(absRepo)
 	r.e = e
 	if err := e.langs.LoadDir(filepath.Join(*verif, "contracts", "lang")); err != nil {
@@ -97,6 +103,7 @@ func cmdCheck(args []string) int {
 	for _, msg := range e.cs.Errors {
 		fmt.Println("contract error:", msg)
 	}
+	e.ProcessLangDirectives()
 	contracts := e.ContractsFor(cfg.ID)
 	for _, c := range contracts {
 		if c.Inline {
@@ -168,6 +175,13 @@ func (r *Run) report(updateLock, verbose, noEvidence bool) int {
 	byKind := map[string]int{}
 	bySolver := map[string]int{}
 	solverSecs := 0.0
+	dup := map[string]bool{}
+	for _, o := range e.obls {
+		if dup[o.Name] {
+			failures = append(failures, &Failure{Name: o.Name + "#duplicate", Reason: "engine error: duplicate obligation name"})
+		}
+		dup[o.Name] = true
+	}
 	names := map[string]bool{}
 	for _, o := range e.obls {
 		names[lockStem(o.Name)] = true
